@@ -219,21 +219,35 @@ def two_files(p_last: int, second_cond: int, inc: bool) -> bool:
     return cfg.get('Port') == want_port and cfg.get('User') == want_user
 
 
-def match_logic(c0: int, n0: bool, c1: int, n1: bool, canonical: bool, final: bool, host: int, user: int) -> bool:
+def match_logic(c0: int, n0: bool, c1: int, n1: bool, canonical: bool, final: int, host: int, user: int, tail: int) -> bool:
     """Match block: the conjunction of its criteria with negation (all,
-    canonical, final, host, user, originalhost, localuser)."""
-    n0, n1, canonical, final = cb(n0), cb(n1), cb(canonical), cb(final)
+    canonical, final, host, user, originalhost, localuser).  Every criterion on
+    the line is evaluated as ssh_config(5) does: a "final" criterion requests
+    the final pass even when an earlier criterion already failed, and a
+    malformed criterion is an error wherever it stands."""
+    n0, n1, canonical = cb(n0), cb(n1), cb(canonical)
+    final = pick([None, False, True], final)          # None: first pass (final pass not yet requested)
     h = pick(['h', 'g'], host)
     u = pick(['u', 'v'], user)
     crit = ['all', 'canonical', 'final', 'host h', 'user u', 'originalhost h', 'localuser local', 'host *,!h']
-    val = [True, canonical, final, h == 'h', u == 'u', h == 'h', True, h != 'h']
+    val = [True, canonical, bool(final), h == 'h', u == 'u', h == 'h', True, h != 'h']
     a, b = pick(crit, c0), pick(crit, c1)
     va, vb = pick(val, c0), pick(val, c1)
-    text = 'Match %s%s %s%s\n  Port 5\n' % ('!' if n0 else '', a, '!' if n1 else '', b)
+    extra = pick(['', ' bogus x', ' user'], tail)
+    text = 'Match %s%s %s%s%s\n  Port 5\n' % ('!' if n0 else '', a, '!' if n1 else '', b, extra)
     cfg = CF.SSHClientConfig(None, False, canonical, final, 'local', u, h, ())
-    _parse(cfg, [('f', text)])
+    try:
+        _parse(cfg, [('f', text)])
+    except CF.ConfigParseError:
+        return extra != ''
+    if extra:
+        return False                       # a malformed criterion was silently accepted
     want = (va != n0) and (vb != n1)
-    return (cfg.get('Port') == 5) == want
+    if (cfg.get('Port') == 5) != want:
+        return False
+    if not final:                           # (the constructor treats False like None: final pass not requested yet)
+        return cfg.has_match_final() == ('final' in (a, b))
+    return cfg.has_match_final()
 
 
 def setters(kind: int, first: int, second: int) -> bool:
@@ -282,10 +296,10 @@ OBLIGATIONS = [
        functions=[CF.SSHConfig.parse, CF.SSHConfig._include, CF.SSHConfig.load],
        bounds='two files read in sequence (config list or Include of two paths), first ending in a matching/non-matching Host block'),
     Ob('match_logic', match_logic,
-       sym=dict(c0=R(0, 7), n0=B, c1=R(0, 7), n1=B, canonical=B, final=B, host=R(0, 1), user=R(0, 1)),
+       sym=dict(c0=R(0, 7), n0=B, c1=R(0, 7), n1=B, canonical=B, final=R(0, 2), host=R(0, 1), user=R(0, 1), tail=R(0, 2)),
        shards=dict(c0=list(range(8))), timeout=200,
        functions=[CF.SSHConfig._match, CF.SSHClientConfig._match_val],
-       bounds='Match with two criteria from 8 forms, each negated or not, canonical/final pass flags, 2 hosts x 2 users'),
+       bounds='Match with two criteria from 8 forms, each negated or not, canonical flag, final pass {not yet requested, no, yes}, 2 hosts x 2 users, optionally followed by an unknown criterion or one without its pattern'),
     Ob('setters', setters, sym=dict(kind=R(0, 3), first=R(0, 4), second=R(0, 4)), timeout=150,
        functions=[CF.SSHConfig._set_bool, CF.SSHConfig._set_int, CF.SSHConfig._set_string, CF.SSHConfig._append_string_list],
        bounds='4 option kinds x two successive values from {yes,no,7,none,abc}'),
